@@ -143,12 +143,25 @@ impl NodeProcessor for RemoveUnusedVariableProcessor {
                                             .map(|(identifier, _)| identifier.clone()),
                                     );
                                 }
+                            } else {
+                                // declaration without any value: keep the used variables
+                                remaining_unassigned_variables.extend(
+                                    assign
+                                        .iter_variables()
+                                        .zip(usages.iter())
+                                        .filter(|(_, used)| **used)
+                                        .map(|(identifier, _)| identifier.clone()),
+                                );
                             }
 
-                            let mut values: Vec<_> = remaining_unassigned_variables
-                                .iter()
-                                .map(|_| Expression::nil())
-                                .collect();
+                            let mut values: Vec<_> = if length == 0 {
+                                Vec::new()
+                            } else {
+                                remaining_unassigned_variables
+                                    .iter()
+                                    .map(|_| Expression::nil())
+                                    .collect()
+                            };
                             let mut variables = remaining_unassigned_variables;
 
                             for (mut identifiers, value) in assignments {
